@@ -45,6 +45,8 @@ const (
 	flawParmRefKept         // the reference inside a filter parameter dictionary keeps its source number (the object is copied all the same)
 	flawParmRefDup          // ... leads to a copy of its own instead of the shared one
 	flawParmEntryLost       // ... is dropped from the parameter dictionary
+	flawParmsStale          // a null entry of an array-valued /DecodeParms receives the value of the nearest non-null entry before it
+	flawParmsShifted        // the entries of an array-valued /DecodeParms move one position to the left (the last becomes null)
 )
 
 type modelCopier struct {
@@ -231,6 +233,49 @@ func (mc *modelCopier) contentOf(o Obj, j int) pdf.Object {
 			}
 			return pdf.NewStream(d, raw)
 		}
+		if cs, ok := chainOf(o.V); ok {
+			// filter-chain family: everything inlined
+			p, _ := chainParms(cs, nil)
+			pa, _ := p.(pdf.Array)
+			changed := false
+			switch {
+			case mc.flaw == flawParmsStale:
+				var last pdf.Object
+				for i := range pa {
+					if pa[i] != nil {
+						last = pa[i]
+					} else if last != nil {
+						pa[i] = last
+						changed = changed || parmKind(asDict(last)) == "dict"
+					}
+				}
+			case mc.flaw == flawParmsShifted && pa != nil:
+				shifted := append(append(pdf.Array{}, pa[1:]...), nil)
+				for i := range pa {
+					if parmKind(asDict(pa[i])) != parmKind(asDict(shifted[i])) {
+						changed = true
+					}
+				}
+				pa = shifted
+			}
+			d["Filter"] = chainNames(cs)
+			if pa != nil {
+				d["DecodeParms"] = pa
+			}
+			raw = chainRaw(cs, plain)
+			if mc.mem != nil {
+				// described as data: the dictionary with the filter entries and
+				// the decoded bytes; with altered parameters the stream decodes to
+				// something else
+				stm := &pdf.Stream{Dict: d}
+				mc.mem.data[stm] = plain
+				if changed {
+					mc.mem.data[stm] = plain[:len(plain)/2]
+				}
+				return stm
+			}
+			return pdf.NewStream(d, raw)
+		}
 		switch o.V {
 		case stmFlate:
 			d["Filter"] = pdf.Name("FlateDecode")
@@ -262,6 +307,11 @@ func (mc *modelCopier) contentOf(o Obj, j int) pdf.Object {
 		return mc.ref(o.It[0])
 	}
 	panic("bad object")
+}
+
+func asDict(x pdf.Object) pdf.Dict {
+	d, _ := x.(pdf.Dict)
+	return d
 }
 
 // modelExecute is execute with the reference copier in place of pdf.Copier.
